@@ -91,6 +91,10 @@ def run(tier, seed):
                     ck.broken.append(("corr", "Interp.create (files)", f"{json.dumps(desc, default=str)[:500]}: model {short(mr)} implementation {short(ires)}"))
                 inp = {"description": desc, "files": {p: c.hex() for p, c in files.items()}, "history": f"pass {ck.cov.get('_pass', 0)}: variant {variant} written to the same paths",
                        "pass": ck.cov.get("_pass", 0), "expect": {k: (v.hex() if isinstance(v, (bytes, bytearray)) else v) for k, v in expect.items()}}
+                if expect["kind"] == "missing":
+                    if ires[0] == "ok":
+                        failing.append({"input": inp, "observed": f"created although a referenced file does not exist ({expect['form']})", "expected": "refused"})
+                    continue
                 if ires[0] != "ok":
                     failing.append({"input": inp, "observed": f"create raised {ires[1]}", "expected": "created"})
                     continue
@@ -244,6 +248,22 @@ def build_cases(ck, tmp, variant=0):
                 f3[op] = own
                 cases.append((desc, f3, {"kind": "dependency_path", "alg": alg, "depth": depth, "child": child_bytes, "own": own,
                                          "form": f"own payload next to the dependency, {first} first"}))
+    # a referenced file that does NOT exist (a mistyped name beside valid siblings, first / last / only entry): there are no bytes to
+    # describe, the request is refused — whatever was read for a sibling must not stand in
+    good1, good2 = fpath(blob(33 + variant, 5), "main.bin"), fpath(blob(9, 6 + variant), "radio.bin")
+    gone = os.path.join(os.path.dirname(good2), "radio.bim")
+    gfiles = {good1: blob(33 + variant, 5), good2: blob(9, 6 + variant)}
+    for nm, members in (("payload, last of three", {"#main": good1, "#radio": good2, "#typo": gone}), ("payload, first of two", {"#typo": gone, "#main": good1}),
+                        ("payload, after a hex payload", {"#hex": "c0ffee", "#typo": gone}), ("payload, only entry", {"#typo": gone})):
+        cases.append((base_env({}, {"suit-integrated-payloads": members}), dict(gfiles), {"kind": "missing", "form": nm}))
+    cases.append((base_env({}, {"suit-integrated-payloads": {"#main": good1}, "suit-integrated-dependencies": {"#dep": gone}}), dict(gfiles), {"kind": "missing", "form": "dependency, after a payload"}))
+    for alg in algs[:2]:
+        cases.append((base_env({"suit-install": [{"suit-directive-override-parameters": {
+            "suit-parameter-image-digest": {"suit-digest-algorithm-id": alg, "suit-digest-bytes": {"file": gone}}, "suit-parameter-image-size": {"file": good1}}}]},
+            {"suit-integrated-payloads": {"#main": good1}}), dict(gfiles), {"kind": "missing", "form": "digest file, size and payload from a sibling"}))
+        cases.append((base_env({"suit-install": [{"suit-directive-override-parameters": {
+            "suit-parameter-image-digest": {"suit-digest-algorithm-id": alg, "suit-digest-bytes": {"file": good1}}, "suit-parameter-image-size": {"file": gone}}}]},
+            {}), dict(gfiles), {"kind": "missing", "form": "size file, digest from a sibling"}))
     # a dependency file that was NOT produced by this tool's create: text-keyed members interleave payloads and a nested envelope
     # (parse-then-serialise would regroup them) — it must be embedded byte for byte, whatever its extension
     import hashlib as _h
@@ -369,6 +389,9 @@ def replay(path):
             fh.write(bytes.fromhex(c))
     r = interp.run_impl(interp.impl_create, inp["description"])
     print("create ->", short(r))
+    if (inp.get("expect") or {}).get("kind") == "missing":
+        print("REPRODUCED: created although a referenced file does not exist" if r[0] == "ok" else "not reproduced on the current tree")
+        return 1 if r[0] == "ok" else 0
     if r[0] != "ok":
         print("REPRODUCED: create raised", r[1])
         return 1
